@@ -135,13 +135,14 @@ def clean_bases(draw, platform=False, redirect=False):
 
 
 _CTRL = re.compile(r"[\x00-\x1f\x7f-\x9f]")
+_EDGES = re.compile(r"^[\s\x00-\x1f\x7f-\x9f]+|[\s\x00-\x1f\x7f-\x9f]+$")
 
 
 def _ctrl_inside_redirect(case):
     """the variant carries a control character and, once cleaned, is a URL from which a redirection is inferred"""
     from ural import infer_redirection
     v = case.get("variant", "")
-    if not _CTRL.search(v.strip(" \t\r\n\x0b\x0c")):   # ASCII whitespace at the edges is stripped by every parser; anything else counts (U+0085 too)
+    if not _CTRL.search(_EDGES.sub("", v)):   # control characters and whitespace *around* the URL are removed before anything is inferred: only one inside counts
         return False
     cleaned = _CTRL.sub("", v).strip()
     return infer_redirection(cleaned) != cleaned
